@@ -358,8 +358,44 @@ def judge_typed(st):
     return out
 
 
+def judge_open_iterations(st):
+    """Library calls that start a lazy iteration must finish or close it themselves: the lock of a lazy resource
+    is released when the iteration ends, and waiting for the garbage collector to finalise an abandoned generator
+    makes the next call fail with 'already under iteration' whenever something (a traceback, a profiler, another
+    interpreter) keeps the generator alive.  Deterministic version: keep every generator of resource.iter() alive."""
+    out = []
+    s = xmlschema.XMLSchema10(LIM_XSD)
+    for label, use in (('get_namespaces(root_only)', lambda r: r.get_namespaces(root_only=True)),
+                       ('get_namespaces()', lambda r: r.get_namespaces(root_only=False)),
+                       ('get_locations()', lambda r: r.get_locations()),
+                       ('namespace', lambda r: r.namespace),
+                       ('is_valid', lambda r: s.is_valid(r)),
+                       ('iter_errors abandoned after the first error', lambda r: next(s.iter_errors(r), None))):
+        st.case()
+        st.nt(('open_iteration', label))
+        res = XMLResource(io.BytesIO(b'<r><a><b/></a><zz/><b/></r>'), lazy=True)
+        keep = []
+        orig = res.iter
+
+        def spy(*a, **k):
+            g = orig(*a, **k)
+            keep.append(g)
+            return g
+        res.iter = spy
+        try:
+            use(res)
+            got = len(list(s.iter_errors(res)))
+            ok = True
+        except xmlschema.XMLSchemaException as e:
+            ok, got = False, type(e).__name__ + ': ' + str(e)[:80]
+        if not ok:
+            out.append({'kind': 'lazy_iteration_left_open', 'input': {'call': label}, 'expected': 'the next iteration works',
+                        'observed': got, 'classes': [], 'key': 'open|' + label})
+    return out
+
+
 def shards(tier, seed):
-    out = [('mut', p, k, tier, seed) for p in range(8) for k in range(2)] + [('limits',), ('deep',), ('typed',)]
+    out = [('mut', p, k, tier, seed) for p in range(8) for k in range(2)] + [('limits',), ('deep',), ('typed',), ('open',)]
     if tier == 'thorough':
         out += [('atheris', k, seed) for k in range(3)]
     return out
@@ -379,6 +415,10 @@ def run_shard(desc):
         for depth in (100, 300, 600, 990):
             for r in judge_bytes('limits', s, nested(depth), st):
                 core.report(st, PROPERTY, r)
+        return st
+    if desc[0] == 'open':
+        for r in judge_open_iterations(st):
+            core.report(st, PROPERTY, r)
         return st
     if desc[0] == 'typed':
         for r in judge_typed(st):
@@ -444,6 +484,8 @@ def run_atheris(k, seed, st):
 def replay(record):
     st = core.Stats()
     inp = record['input']
+    if record['kind'] == 'lazy_iteration_left_open':
+        return [r for r in judge_open_iterations(st) if r['key'] == record.get('key')][:1]
     if record['kind'] in ('depth_limit', 'element_limit', 'element_limit_lazy'):
         return [r for r in judge_limits(st) if r['key'] == record.get('key')][:1]
     data = nested(600) if inp['data'] == 'DEEP600' else inp['data'].encode('latin-1')
